@@ -89,9 +89,16 @@ func writeTree(st *memory.Storage, d *dirNode) plumbing.Hash {
 
 // BuildRepo writes the commits into a fresh in-memory repository and returns them in input order.
 func BuildRepo(cs []CommitSpec) (*git.Repository, []*object.Commit) {
+	return BuildRepoFunc(len(cs), func(i int) CommitSpec { return cs[i] })
+}
+
+// BuildRepoFunc is BuildRepo for histories too large to hold every commit's file contents at once: the
+// specification of commit i is asked for when it is written (parents index earlier commits).
+func BuildRepoFunc(n int, spec func(i int) CommitSpec) (*git.Repository, []*object.Commit) {
 	st := memory.NewStorage()
-	hs := make([]plumbing.Hash, len(cs))
-	for i, c := range cs {
+	hs := make([]plumbing.Hash, n)
+	for i := 0; i < n; i++ {
+		c := spec(i)
 		root := newDir()
 		for _, f := range c.Files {
 			parts := strings.Split(f.Path, "/")
@@ -130,7 +137,7 @@ func BuildRepo(cs []CommitSpec) (*git.Repository, []*object.Commit) {
 	if err != nil {
 		repo, _ = git.Init(st, nil)
 	}
-	commits := make([]*object.Commit, len(cs))
+	commits := make([]*object.Commit, n)
 	for i, x := range hs {
 		c, err := repo.CommitObject(x)
 		if err != nil {
